@@ -55,6 +55,25 @@ func runC17(c *core.Ctx) {
 	for j := int64(1); j <= 16; j++ {
 		addMul(fmt.Sprintf("%dG", j), big.NewInt(j))
 	}
+	// the curve's endomorphism (x, y) -> (beta*x, y), beta^3 = 1 mod p: DIFFERENT points with the SAME y coordinate (and, for
+	// the third root, the same again). lambda with lambda*(x,y) = (beta*x, y) solves lambda^2 + lambda + 1 = 0 mod n.
+	var lambdas []*big.Int
+	if r := new(big.Int).ModSqrt(new(big.Int).Sub(n, big.NewInt(3)), n); r != nil {
+		inv2 := new(big.Int).ModInverse(big.NewInt(2), n)
+		for _, root := range []*big.Int{r, new(big.Int).Sub(n, r)} {
+			l := new(big.Int).Sub(root, big.NewInt(1))
+			l.Mul(l, inv2).Mod(l, n)
+			if q := ref.Mul(ref.G(), l); q.Y.Cmp(ref.G().Y) == 0 && q.X.Cmp(ref.G().X) != 0 {
+				lambdas = append(lambdas, l)
+			}
+		}
+	}
+	for li, l := range lambdas {
+		for _, j := range []int64{1, 2, 5} {
+			addMul(fmt.Sprintf("lambda%d*%dG (same y as %dG)", li+1, j, j), new(big.Int).Mod(new(big.Int).Mul(l, big.NewInt(j)), n))
+		}
+	}
+	c.Set("equal_y_point_families", int64(len(lambdas)))
 	h1 := new(big.Int).Rsh(new(big.Int).Sub(n, big.NewInt(1)), 1)
 	h2 := new(big.Int).Rsh(new(big.Int).Add(n, big.NewInt(1)), 1)
 	addMul("((n-1)/2)G", h1)
@@ -149,6 +168,12 @@ func runC17(c *core.Ctx) {
 		for i := 0; i < 12; i++ {
 			k := new(big.Int).Exp(big.NewInt(int64(3+i)), big.NewInt(int64(97+i*13)), two256)
 			scalars = append(scalars, sc{fmt.Sprintf("r%d", i), k.Bytes()})
+		}
+		for li, l := range lambdas { // k*B passes through the sum of two points with equal y
+			for _, d := range []int64{-1, 1, 2} {
+				v := new(big.Int).Add(l, big.NewInt(d))
+				scalars = append(scalars, sc{fmt.Sprintf("lambda%d%+d", li+1, d), v.Mod(v, n).Bytes()})
+			}
 		}
 		bases := []np{pts[1], pts[2], pts[3], pts[len(pts)-1], pts[len(pts)-4], pts[33]}
 		for _, s := range scalars {
